@@ -56,7 +56,7 @@ for d in sorted(glob.glob(ROOT + "/C*")):
     json.dump(meta, open(os.path.join(d, "meta.json"), "w"), indent=1)
     rows.append(meta)
 with open(ROOT + "/RESULTS.md", "w") as f:
-    f.write("# Seeded changes: last sweep (tools/run_all_seeds.sh, quick tier)\n\n| seed | change | result |\n|---|---|---|\n")
+    f.write("# Seeded changes: latest run of each seed (quick tier; seeded/last_sweep.txt names the sweep each line comes from; blind outcomes of rounds 3-5 are in seeded/round*_blind*.txt and in each meta.json)\n\n| seed | change | result |\n|---|---|---|\n")
     for m in rows:
         f.write("| %s | %s | %s |\n" % (m["seed"], m["change"].replace("|", "/")[:140], m["result"]))
 print(len(rows), "seeds;", sum(1 for m in rows if m["result"].startswith("caught: exit 1, VIOLATION with")), "with failing input;",
